@@ -3,8 +3,10 @@
 # "passed=<n> failed=<n>"; exit 0 iff nothing failed.  The PyPI test needs network.
 D=${1:-/repo}
 X=$(mktemp /dev/shm/junit.XXXXXX.xml)
+# test_server_init indexes the whole temporary directory: give the suite a private, empty one
+T=$(mktemp -d /dev/shm/suite_tmp.XXXXXX)
 cd "$D" || exit 2
-PYTHONPATH="$D" /venv/bin/python -m pytest -q -p no:cacheprovider --timeout=900 \
+TMPDIR="$T" PYTHONPATH="$D" /venv/bin/python -m pytest -q -p no:cacheprovider --timeout=900 \
   --continue-on-collection-errors --no-cov \
   --deselect test/test_interface.py::test_version_update_pypi --junitxml="$X" >/dev/null 2>&1
 python3 - "$X" <<'PY'
@@ -18,5 +20,5 @@ for b in bad: print("FAILED", b)
 sys.exit(1 if (f or e) else 0)
 PY
 rc=$?
-rm -f "$X"
+rm -rf "$X" "$T"
 exit $rc
